@@ -35,6 +35,7 @@ fn main() {
         "flushdist" => h::eng_repair::main_flushdist(rest),
         "skipscan" => h::eng_repair::main_skipscan(rest),
         "blockruns" => h::eng_fault::main_blockruns(rest),
+        "hugepos" => h::eng_layers::main_hugepos(rest),
         "capimem" => h::eng_capi::main_mem(rest),
         "mem" => h::eng_mem::main(rest),
         "compfs" => h::eng_compfs::main(rest),
